@@ -1,4 +1,5 @@
 import PikaVerif.Lemmas.EraseEv
+import PikaVerif.Lemmas.EraseLed
 /-!
 # C18 — Type-erased senders and functions behave like what they wrap
 
@@ -133,6 +134,18 @@ theorem C18_ledger (c : Cfg) (hc : c.sbo = false) (hpin : c.pinned = false) (ops
   · rintro ⟨i, o, _, _, hobj, rfl⟩
     have := hi.ownB i o hobj
     simp [this]
+
+/-- **The trace is well formed at every point.**  The ledger acceptor `ledStep` — object ids are
+    constructed in order; the source of every copy/move construction, of every failed construction,
+    every connected sender and every destroyed object is *alive at that moment* (constructed, not
+    yet destroyed) — accepts the complete event trace of every history, and ends in the model's
+    ledger.  So no wrapper operation ever copies from, moves from, connects or destroys an object
+    that is already destroyed, at any point of any history (not only in the final counts). -/
+theorem C18_trace_well_formed (c : Cfg) (hc : c.sbo = false) (hpin : c.pinned = false) (ops : List Op) :
+    runLog ledStep { next := 0, dt := fun _ => 0 } (events c ops) =
+      some (ledOf (finalSt c init ops)) := by
+  have h := led_history c hc hpin ops init (inv_init c)
+  simpa [events, ledOf, init] using h
 
 /-- **Exactly once at the end.**  When every wrapper has been destroyed, every object that was
     ever constructed — wrapped objects, their copies, the temporaries they were made from — has
